@@ -240,7 +240,113 @@ pub fn history_round(ctx: &Ctx, initial: usize, max: usize, len: usize, seed: u6
     let _ = server.stop();
 }
 
+/// One pass of the quiet-period history: connection A is answered and stays open; `max - 1`
+/// further connections are answered (the pool grows to its bound) and closed; `gap` of silence;
+/// then `max - 1` connections are opened one after the other and left open - with A that makes
+/// `max` in service, so each of them must be answered. Ok(Err(..)) = one was not.
+fn quiet_pass(initial: usize, max: usize, gap: Duration, reverse: bool, tag: &str) -> Result<Result<usize, String>, String> {
+    let mut server = Server::start(standard_service(SvcCfg::default()), Transport::UnixPath, ServerCfg { initial, max, idle_timeout: 0, with_stop_flag: true })?;
+    server.wait_ready()?;
+    std::thread::sleep(Duration::from_millis(20));
+    let echo = |c: &mut RawConn, tok: &str, wait: Duration| -> Result<bool, String> {
+        c.write_all(&crate::model::Req::new(crate::model::Kind::Echo, crate::model::Flags { more: false, oneway: false }, tok).to_bytes()).map_err(|e| format!("write: {}", e))?;
+        match c.read_frame(wait) {
+            ReadEv::Frame(f) if String::from_utf8_lossy(&f).contains(tok) => Ok(true),
+            ReadEv::Frame(_) => Err("foreign or wrong reply".into()),
+            ReadEv::Timeout => Ok(false),
+            ReadEv::Eof => Err("closed by the service".into()),
+            ReadEv::Error(e) => Err(e),
+        }
+    };
+    let mut a = RawConn::connect(&server.address).map_err(|e| format!("connect: {}", e))?;
+    if !echo(&mut a, &format!("{}A", tag), Duration::from_secs(20))? {
+        return Err("first connection not answered within 20 s".into());
+    }
+    let mut spare = Vec::new();
+    for i in 1..max {
+        let mut c = RawConn::connect(&server.address).map_err(|e| format!("connect: {}", e))?;
+        if !echo(&mut c, &format!("{}B{}", tag, i), Duration::from_secs(20))? {
+            return Err("connection not answered within 20 s before the quiet period".into());
+        }
+        spare.push(c);
+    }
+    if reverse {
+        spare.reverse();
+    }
+    for mut c in spare {
+        c.shutdown_both();
+        drop(c);
+        std::thread::sleep(Duration::from_millis(3));
+    }
+    std::thread::sleep(gap);
+    let mut held = Vec::new();
+    let mut verdict = Ok(max - 1);
+    for j in 1..max {
+        let mut c = RawConn::connect(&server.address).map_err(|e| format!("connect: {}", e))?;
+        if !echo(&mut c, &format!("{}C{}", tag, j), Duration::from_secs(8))? {
+            verdict = Err(format!(
+                "initial {} / max {}: one connection open throughout, {} more served and closed, {:.1} s of silence, then connection #{} got no reply within 8 s with {} of {} in service",
+                initial,
+                max,
+                max - 1,
+                gap.as_secs_f64(),
+                j,
+                held.len() + 1,
+                max
+            ));
+            break;
+        }
+        held.push(c);
+    }
+    drop(held);
+    drop(a);
+    let _ = server.stop();
+    Ok(verdict)
+}
+
+/// Quiet periods are where a pool's timers (idle reaping, keep-alive) act; the gate rounds and
+/// the random histories never pause that long. Judged after a repetition on a fresh server.
+pub fn quiet_round(ctx: &Ctx, initial: usize, max: usize, gap: Duration, reverse: bool, tag: &str) {
+    let mut fails = Vec::new();
+    for attempt in 0..2 {
+        match quiet_pass(initial, max, gap, reverse, &format!("{}a{}", tag, attempt)) {
+            Err(e) => {
+                ctx.inconclusive(json!({"quiet_round": e, "gap_s": gap.as_secs_f64()}));
+                return;
+            }
+            Ok(Ok(n)) => {
+                if attempt == 0 {
+                    ctx.case(Some(hash_of(&("quiet-round", initial, max, gap.as_millis() as u64, reverse))));
+                    ctx.count("quiet_period_histories", 1);
+                    ctx.count("connections_served_after_quiet_period", n as u64);
+                } else {
+                    ctx.inconclusive(json!({"quiet_round": "a connection went unanswered once but not on a fresh server", "first": fails}));
+                }
+                return;
+            }
+            Ok(Err(m)) => fails.push(m),
+        }
+    }
+    ctx.violation(
+        "c14:connection-stranded-after-quiet-period",
+        json!({"engine": "c14-quiet", "initial_worker_threads": initial, "max_worker_threads": max, "gap_ms": gap.as_millis() as u64, "reverse": reverse, "message": fails}),
+    );
+}
+
 pub fn run(ctx: &Ctx) {
+    let gaps: Vec<u64> = ctx.tier.pick(vec![2600], vec![1100, 2600, 5500, 11_000, 31_000]);
+    std::thread::scope(|sc| {
+        for (gi, g) in gaps.iter().enumerate() {
+            let g = *g;
+            for (ci, (i, m)) in [(1usize, 4usize), (2, 3), (1, 2)].into_iter().enumerate() {
+                sc.spawn(move || quiet_round(ctx, i, m, Duration::from_millis(g), (gi + ci) % 2 == 1, &format!("q{}c{}", gi, ci)));
+            }
+        }
+        run_rounds(ctx);
+    });
+}
+
+fn run_rounds(ctx: &Ctx) {
     let cfgs: Vec<(usize, usize)> = vec![(1, 1), (1, 2), (1, 4), (2, 2), (2, 4), (3, 4), (3, 1), (2, 1), (1, 3), (3, 3)];
     let hrounds = ctx.tier.pick(120usize, 4000usize);
     par(8, |w| {
